@@ -765,11 +765,14 @@ class Runner:
                 try:
                     try:
                         value = future.result()
-                    except Exception as e:
+                    except (Exception, asyncio.CancelledError) as e:
                         # Save the exception for later. It's important that
                         # gen.throw() not be called inside this try/except block
                         # because that makes sys.exc_info behave unexpectedly.
-                        exc: Exception | None = e
+                        # (A cancelled future raises CancelledError, which is
+                        # not an Exception; it is thrown into the generator
+                        # like any other failure, as for a native coroutine.)
+                        exc: BaseException | None = e
                     else:
                         exc = None
                     finally:
@@ -791,6 +794,14 @@ class Runner:
                     future_set_result_unless_cancelled(
                         self.result_future, _value_from_stopiteration(e)
                     )
+                    self.result_future = None  # type: ignore
+                    return
+                except asyncio.CancelledError:
+                    # The coroutine let the cancellation propagate: it ends
+                    # cancelled, like a native coroutine's task.
+                    self.finished = True
+                    self.future = _null_future
+                    self.result_future.cancel()
                     self.result_future = None  # type: ignore
                     return
                 except Exception:
